@@ -1,1 +1,72 @@
-fn main(){}
+//! T flavour ("threads"): jubako's threads, locks, condvars, channels and pools run as shuttle
+//! tasks under a scheduler the simulator owns; one execution = (code, workload, decisions).
+
+mod c08;
+mod exec;
+mod sched;
+mod tcheck;
+
+use simcore::Tier;
+
+pub struct Args {
+    pub cmd: String,
+    pub tier: Tier,
+    pub seed: u64,
+    pub replay: Option<String>,
+    pub worker: Option<(usize, usize)>,
+    pub rest: Vec<String>,
+}
+
+fn parse_args() -> Args {
+    let raw: Vec<String> = std::env::args().skip(1).collect();
+    let mut a = Args {
+        cmd: raw.first().cloned().unwrap_or_default(),
+        tier: std::env::var("VERIF_TIER")
+            .ok()
+            .and_then(|t| Tier::parse(&t))
+            .unwrap_or(Tier::Quick),
+        seed: simcore::seed_from_env(),
+        replay: None,
+        worker: simcore::proc::parse_worker_arg(&raw),
+        rest: vec![],
+    };
+    let mut i = 1;
+    while i < raw.len() {
+        match raw[i].as_str() {
+            "--tier" => {
+                i += 1;
+                a.tier = Tier::parse(&raw[i]).unwrap_or_else(|| simcore::harness_error("bad tier"));
+            }
+            "--seed" => {
+                i += 1;
+                a.seed = raw[i].parse().unwrap_or_else(|_| simcore::harness_error("bad seed"));
+            }
+            "--replay" => {
+                i += 1;
+                a.replay = Some(raw[i].clone());
+            }
+            s if s.starts_with("--worker=") => {}
+            s => a.rest.push(s.to_string()),
+        }
+        i += 1;
+    }
+    a
+}
+
+fn dispatch(check: &dyn tcheck::TCheck, args: &Args) -> ! {
+    if let Some(f) = args.replay.clone() {
+        tcheck::replay_main(check, args, &f)
+    } else if let Some((w, n)) = args.worker {
+        tcheck::worker_main(check, args, w, n)
+    } else {
+        tcheck::parent_main(check, args)
+    }
+}
+
+fn main() {
+    let args = parse_args();
+    match args.cmd.as_str() {
+        "c08" => dispatch(&c08::C08, &args),
+        other => simcore::harness_error(&format!("unknown command {other:?}")),
+    }
+}
